@@ -9,6 +9,13 @@ import os
 import sys
 
 HINT = {
+  'k': ("look for what it is least likely to exercise while still being squarely inside the property statement: make the change in a "
+        "SHARED, LOWER-LEVEL or NEIGHBOURING module that this property's behaviour depends on only indirectly (for example "
+        "scales/observable.py, scales/asynchronous.py, scales/message.py, scales/sink.py, scales/timer_queue.py, scales/varz.py, "
+        "scales/scales_socket.py, scales/binary.py, scales/compat.py, scales/dispatch.py, scales/core.py, scales/pool/base.py, "
+        "scales/loadbalancer/serverset.py, a builder module) rather than in the module that implements the property's main logic, so that "
+        "the property breaks only in one particular situation while the helper's own obvious uses keep working. State in notes.md which "
+        "call path connects your change to the property."),
   'j': ("look for what it is least likely to exercise while still being squarely inside the property statement: LIFECYCLE edges (Close or "
         "shutdown while something is in flight or being opened, a second Close, Close before Open, use after Close, a client closed by its "
         "owner while a notification is being delivered), ALIASING (a dict, list or message object passed by reference and modified later by "
